@@ -1,6 +1,7 @@
 use crate::engine::Property;
 
 pub mod c01;
+pub mod c02;
 pub mod c03;
 pub mod c04;
 pub mod c06;
@@ -20,6 +21,7 @@ pub mod c19;
 pub fn all() -> Vec<Box<dyn Property>> {
     vec![
         Box::new(c01::C01),
+        Box::new(c02::C02),
         Box::new(c03::C03),
         Box::new(c04::C04),
         Box::new(c06::C06),
